@@ -14,6 +14,8 @@ def sample_envs():
     yield 'none-done', {'a': {'status': S.FAILED}, 'b': {'status': S.SKIPPED}}
     yield 'no-output-dir', {'a': {'status': S.DONE, 'x': 1}}
     yield 'empty', {}
+    # task names are not file names: a checkout task named 'ext/mylib' writes to <output-root>/ext/mylib, which is where its environment is looked for
+    yield 'names-with-a-slash', {'ext/mylib': {'status': S.DONE, 'value': 1}, 'ext/other': {'status': S.FAILED}, 'plain': {'status': S.DONE, 'value': 2}}
 
 
 def _prepare(root, entries, with_dir=True):
@@ -154,8 +156,12 @@ def sweep(tier, seed):
         bad = _command_history(hist, fname)
         if bad:
             fails.append({'input': {'runs_of_the_command': hist}, 'observed': bad, 'expected': 'after each run read_env returns exactly the entries the run left DONE'})
+    n += 1
+    probs = cyclic_case()
+    if probs:
+        fails.append({'input': {'env': 'entries holding the environment itself'}, 'observed': probs[:3], 'expected': 'the entry read is the entry written'})
     return {'name': 'persisted-environments-native', 'evaluations': n, 'distinct': n, 'failures': fails[:8], 'exhaustive': True,
-            'bound': '6 sample environments (all statuses, nested / binary payloads, with and without output directories); write_env then read_env: intact, '
+            'bound': '7 sample environments (all statuses, nested / binary payloads, with and without output directories, task names holding a slash) + one whose entries hold the environment itself; write_env then read_env: intact, '
                      'every byte prefix of every written file (one damaged file at a time), empty, missing, garbage, foreign pickles and environments whose entry holds a non-status (string, None, numbers, bytes, list); two-run histories DONE -> FAILED / SKIPPED / WAITING; re-writing an existing DONE file with a FAILED / DONE entry in a child process killed after k bytes (k = 0..39, every 7th, all); 2-3 successive runs of the real RunCommand.execute on a 3-task job with failing tasks and damaged files in between',
             'samples': [{'env': 'one-done', 'damage': 'solo truncated at byte 17'}]}
 
@@ -283,6 +289,39 @@ def _killed_write(env, fname, k):
         finally:
             os._exit(0)
     os.waitpid(pid, 0)
+
+
+def cyclic_case():
+    '''entries that hold a reference to the environment itself (a task keeping the env it was given, as results of several tasks): what is read back for a DONE task is
+    what was written, the inner environment included'''
+    from valjean.cosette.task import TaskStatus
+    from valjean.cambronne.common import read_env, write_env
+    root = tempfile.mkdtemp(prefix='c14c_', dir='/var/tmp')
+    probs = []
+    try:
+        env = _prepare(root, {'prepare': {'status': TaskStatus.DONE, 'n': 1}, 'report': {'status': TaskStatus.DONE, 'n': 2}, 'summary': {'status': TaskStatus.DONE, 'n': 3}})
+        for nm in ('report', 'summary'):
+            env[nm]['seen_env'] = env
+            env[nm]['peer'] = env['prepare']
+        write_env(env, filename='valjean.env', fmt='pickle')
+        got = read_env(root=root, names=list(env), filename='valjean.env', fmt='pickle')
+        if sorted(got) != sorted(env):
+            probs.append(f'read back {sorted(got)}, written {sorted(env)}')
+        for nm in ('report', 'summary'):
+            if nm not in got:
+                continue
+            inner = got[nm].get('seen_env')
+            if inner is None or sorted(inner) != sorted(env):
+                probs.append(f"{nm}: 'seen_env' was written with tasks {sorted(env)}, read back with tasks {sorted(inner) if inner is not None else None}")
+            elif any(inner[k].get('n') != env[k]['n'] for k in env):
+                probs.append(f"{nm}: the entries of the inner environment differ from those written")
+            if got[nm].get('peer', {}).get('n') != 1:
+                probs.append(f"{nm}: 'peer' read back as {got[nm].get('peer')}")
+    except Exception as e:      # noqa
+        probs.append(f'raised {e!r}')
+    finally:
+        shutil.rmtree(root, ignore_errors=True)
+    return probs
 
 
 def _read_and_judge(read_env, root, names, fname, env, damaged, label, damage, TaskStatus):
